@@ -80,7 +80,7 @@ def _one(rets, what):
 
 def unit_bdd_graph(k, opts):
     """BDDGraph (src/bdd_io.rs) of the canonical diagram of an unknown function of k variables, unknown filter"""
-    I = load('lib', dict(opts.get('config') or {}, format_symbolic=True))
+    I = load('lib', dict(opts.get('config') or {}, format_symbolic='prop'))
     if opts.get('mutate'):
         apply_mir_mutation(I, opts['mutate'])
     install_dot_models(I)
